@@ -144,6 +144,29 @@ def compare(results):
     return bad
 
 
+def getdef_inherit_check():
+    """a single def of an inheriting template rendered through get_def: same output as when the page calls it"""
+    from mako.lookup import TemplateLookup
+    lk = TemplateLookup()
+    lk.put_string("base.html", '<%def name="who()">base-who</%def><%def name="label()">base-label</%def>[${self.body()}]')
+    lk.put_string("child.html", '<%inherit file="base.html"/><%def name="who()">child-who</%def><%def name="show()">${local.who()}/${self.who()}/${parent.label()}</%def>${show()}')
+    t = lk.get_template("child.html")
+    page = t.render_unicode()
+    bad = []
+    exp = "child-who/child-who/base-label"
+    if page != "[%s]" % exp:
+        bad.append({"path": "render", "got": page, "expected": "[%s]" % exp})
+    for entry in ("render", "render_unicode"):
+        try:
+            got = getattr(t.get_def("show"), entry)()
+            got = got if isinstance(got, str) else got.decode()
+        except Exception as e:
+            got = "%s: %s" % (type(e).__name__, str(e)[:80])
+        if got != exp:
+            bad.append({"path": "get_def('show').%s" % entry, "got": got, "expected": exp})
+    return bad
+
+
 def collision_check():
     """two templates whose URIs differ only in non-word characters, alive together"""
     from mako.lookup import TemplateLookup
